@@ -211,7 +211,7 @@ func (g *condGen) adds(m int, mode int) {
 	}
 }
 
-var condScenarios = []string{"random", "park-close", "park-add", "drain-after-close", "bound", "close-race", "steal", "tryclose"}
+var condScenarios = []string{"random", "park-close", "park-add", "drain-after-close", "bound", "close-race", "steal", "tryclose", "add-close-burst", "add-close-burst"}
 
 func (g *condGen) scenario(name string) {
 	rnd := g.rnd
@@ -279,6 +279,20 @@ func (g *condGen) scenario(name string) {
 		}
 		g.exec(b)
 		g.park(1, false)
+	case "add-close-burst":
+		// k >= 2 consumers parked, then an add immediately followed by Close, back to back from one goroutine: the
+		// consumer the add woke has usually not run when Close arrives, so Close finds a non-empty queue
+		k := 2 + rnd.Intn(3)
+		g.park(k, rnd.Intn(2) == 0)
+		l := []cOp{g.addOp()}
+		if rnd.Intn(4) == 0 {
+			l = append(l, g.addOp())
+		}
+		l = append(l, cOp{Op: lClose})
+		g.exec(cBatch{Lanes: [][]cOp{l}})
+		if rnd.Intn(2) == 0 {
+			g.park(1, false)
+		}
 	case "steal":
 		// a woken consumer can find the item gone: a fresh consumer (or TryPop) races with it
 		k := 1 + rnd.Intn(3)
@@ -741,7 +755,7 @@ func main() {
 		diverged := 0
 		const maxDiverged = 24
 		for _, typ := range types {
-			for i := 0; i < perType && stuckCases < 3 && diverged < maxDiverged; i++ {
+			for i := 0; i < perType && stuckCases < 2 && diverged < maxDiverged; i++ {
 				if typ == "priq.PriQueue" {
 					scen := priScenarios[0]
 					if i%2 == 1 {
@@ -780,6 +794,9 @@ func main() {
 				hist[fmt.Sprintf("cond maxparked=%d", g.run.res.maxParked)]++
 				emitCond(e, g, scen)
 			}
+		}
+		if stuckCases == 0 {
+			runStress(e, types)
 		}
 		if (e.Thorough || e.Search) && stuckCases == 0 && diverged == 0 {
 			n := 0
